@@ -40,14 +40,21 @@ type c13Op struct {
 
 func c13Preload(f *fakemc.Server, callers int) {
 	for ci := 0; ci < callers; ci++ {
-		for r := 0; r < 3; r++ {
-			f.Put(fmt.Sprintf("c%d-r%d", ci, r), fakemc.Entry{Value: c13Value(ci, r), Flags: uint32(ci*10 + r)})
+		for r := 0; r < 4; r++ {
+			// every immutable key expires in 100000 s (gete reports the remaining lifetime)
+			f.Put(fmt.Sprintf("c%d-r%d", ci, r), fakemc.Entry{Value: c13Value(ci, r), Flags: c13Flags(ci, r), Deadline: time.Now().Unix() + 100000})
 		}
 		f.Put(fmt.Sprintf("c%d-ap", ci), fakemc.Entry{Value: []byte("base")})
 	}
 }
 
+// c13Flags has no zero byte, so that a reply cut inside its extras cannot pass for the real thing.
+func c13Flags(ci, r int) uint32 { return 0xC1D2E300 | uint32(ci*10+r+1) }
+
 func c13Value(ci, r int) []byte {
+	if r == 3 {
+		return []byte{} // an empty value: its reply ends with the extras
+	}
 	return []byte(fmt.Sprintf("<immutable value of caller %d key %d %s>", ci, r, strings.Repeat("y", 50*r*r)))
 }
 
@@ -73,10 +80,13 @@ func TestC13(t *testing.T) {
 		plans := make([][]c13Op, callers)
 		for ci := range plans {
 			for s := 0; s < nops; s++ {
-				op := c13Op{Kind: rapid.SampledFrom([]string{"get", "get", "get", "set", "append", "gat", "delete-missing", "add-existing"}).Draw(t, "op")}
+				op := c13Op{Kind: rapid.SampledFrom([]string{"get", "get", "get", "set", "append", "gat", "gete", "delete-missing", "add-existing"}).Draw(t, "op")}
+				if op.Kind == "gat" || op.Kind == "gete" {
+					op.Keys = []string{fmt.Sprintf("c%d-r%d", ci, rapid.SampledFrom([]int{1, 3, 3}).Draw(t, "rk1"))}
+				}
 				if op.Kind == "get" {
 					for j := rapid.IntRange(1, 4).Draw(t, "nkeys"); j > 0; j-- {
-						op.Keys = append(op.Keys, fmt.Sprintf("c%d-r%d", ci, rapid.IntRange(0, 2).Draw(t, "rk")))
+						op.Keys = append(op.Keys, fmt.Sprintf("c%d-r%d", ci, rapid.IntRange(0, 3).Draw(t, "rk")))
 						op.Quiets = append(op.Quiets, rapid.Bool().Draw(t, "quiet"))
 					}
 				}
@@ -99,7 +109,7 @@ func TestC13(t *testing.T) {
 		for i := 0; i < nf; i++ {
 			fl := c13Fault{At: rapid.IntRange(0, total+total/2).Draw(t, "at"), Kind: rapid.SampledFrom([]string{"close-before", "close-after-proc", "close-mid-reply", "close-after-reply"}).Draw(t, "faultKind")}
 			if fl.Kind == "close-mid-reply" {
-				fl.Bytes = rapid.SampledFrom([]int{1, 23, 24, 25, 30, -1}).Draw(t, "bytes")
+				fl.Bytes = rapid.SampledFrom([]int{1, 23, 24, 25, 26, 28, 30, -1}).Draw(t, "bytes")
 			}
 			faults = append(faults, fl)
 		}
@@ -167,7 +177,7 @@ func TestC13(t *testing.T) {
 								seen[r.Opaque] = true
 								var rk int
 								fmt.Sscanf(strings.SplitN(r.Key, "-r", 2)[1], "%d", &rk)
-								if r.Miss || !bytes.Equal(r.Data, c13Value(ci, rk)) || r.Flags != uint32(ci*10+rk) {
+								if r.Miss || !bytes.Equal(r.Data, c13Value(ci, rk)) || r.Flags != c13Flags(ci, rk) {
 									problems[ci] = fmt.Sprintf("caller %d op %d get %v: response %s is not the caller's own stored value", ci, s, op.Keys, r)
 								}
 							}
@@ -185,10 +195,23 @@ func TestC13(t *testing.T) {
 							}
 						}
 					case "gat":
-						res, _ := execHandler(h, wire.Cmd{Kind: wire.Gat, Key: fmt.Sprintf("c%d-r1", ci), Exptime: 0}, 0)
+						var rk int
+						fmt.Sscanf(strings.SplitN(op.Keys[0], "-r", 2)[1], "%d", &rk)
+						res, _ := execHandler(h, wire.Cmd{Kind: wire.Gat, Key: op.Keys[0], Exptime: 100000}, 0)
 						if res.Err == nil {
-							if hit := res.Hits[0]; hit == nil || !bytes.Equal(hit.Value, c13Value(ci, 1)) {
-								problems[ci] = fmt.Sprintf("caller %d op %d gat: no error but result %+v is not the caller's stored value", ci, s, hit)
+							if hit := res.Hits[0]; hit == nil || !bytes.Equal(hit.Value, c13Value(ci, rk)) || hit.Flags != c13Flags(ci, rk) {
+								problems[ci] = fmt.Sprintf("caller %d op %d gat %s: no error but result %+v is not the caller's stored value (flags %#x)", ci, s, op.Keys[0], hit, c13Flags(ci, rk))
+							}
+						}
+					case "gete":
+						var rk int
+						fmt.Sscanf(strings.SplitN(op.Keys[0], "-r", 2)[1], "%d", &rk)
+						res, _ := execHandler(h, wire.Cmd{Kind: wire.GetE, Keys: []string{op.Keys[0]}}, 0)
+						if res.Err == nil {
+							if hit := res.Hits[0]; hit == nil || !bytes.Equal(hit.Value, c13Value(ci, rk)) || hit.Flags != c13Flags(ci, rk) {
+								problems[ci] = fmt.Sprintf("caller %d op %d gete %s: no error but result %+v is not the caller's stored value (flags %#x)", ci, s, op.Keys[0], hit, c13Flags(ci, rk))
+							} else if len(res.Exps) != 1 || res.Exps[0] < 90000 || res.Exps[0] > 100001 {
+								problems[ci] = fmt.Sprintf("caller %d op %d gete %s: no error but remaining lifetime %v, the stored item has about 100000 s", ci, s, op.Keys[0], res.Exps)
 							}
 						}
 					case "set":
@@ -266,7 +289,7 @@ func TestC13(t *testing.T) {
 			if !strings.HasPrefix(ap, "base") {
 				t.Fatalf("C13 %s: append target of caller %d is %q", descr, ci, ap)
 			}
-			for r := 0; r < 3; r++ {
+			for r := 0; r < 4; r++ {
 				if e := live[fmt.Sprintf("c%d-r%d", ci, r)]; !bytes.Equal(e.Value, c13Value(ci, r)) {
 					t.Fatalf("C13 %s: immutable key c%d-r%d now holds %q", descr, ci, r, e.Value)
 				}
